@@ -172,7 +172,7 @@ def pick_cell(obj, kind):
     return None
 
 
-def replay(inst, hist, stats, texts):
+def replay_history(inst, hist, stats, texts):
     """-> trace {"ev": [...]} , per-event Python-side info (for reports and the exact-semantics cases)."""
     with qp.queuing.QueuingManager.stop_recording():
         root = inst.make(0)
@@ -330,29 +330,49 @@ def negative_traces():
 
 
 # ------------------------------------------------------------------------------------------------ run
+class _Stats(dict):
+    def __missing__(self, k):
+        return 0
+
+
 def run(tier, seed):
-    t0, cpu0, kid0 = time.time(), time.process_time(), sum(resource.getrusage(resource.RUSAGE_CHILDREN)[:2])
+    t0 = (time.time(), time.process_time(), sum(resource.getrusage(resource.RUSAGE_CHILDREN)[:2]))
     rng = random.Random(seed)
     g, hists, model_negs, steps = model_and_histories(tier)
-    t_model = time.time() - t0
     insts, dropped = S.build_space(tier, seed)
     if len(dropped) > 6 or len(insts) < 400:
         raise lib.MachineryError(f"instance space collapsed: {len(insts)} instances, dropped recipes {dropped[:8]}")
     pools = make_pools(hists, bind_in_chains=tier != "quick")
-    n_extra = 1 if tier == "quick" else 6
+    n_extra = 1 if tier == "quick" else 4
+    plan = [(inst, choose_histories(rng, pools, inst, n_extra)) for inst in insts]
+    return _judge(plan, tier, t0, g=g, n_hists=len(hists), model_negs=model_negs, steps=steps, insts=insts, dropped=dropped, full=True)
+
+
+def replay(path, tier="quick", seed=0):
+    """Re-run one recorded violation: the replay file names the instance (label of the space) and the history prefix."""
+    t0 = (time.time(), time.process_time(), sum(resource.getrusage(resource.RUSAGE_CHILDREN)[:2]))
+    d = json.loads(open(path).read())["replay"]
+    inst = None
+    for tr in (tier, "thorough", "quick"):
+        insts, dropped = S.build_space(tr, seed)
+        inst = next((i for i in insts if i.label == d["instance"]), None)
+        if inst is not None:
+            break
+    if inst is None:
+        raise lib.MachineryError(f"instance {d['instance']} is not in the space for seed {seed}")
+    return _judge([(inst, [d["history"]])], tier, t0, g=None, n_hists=0, model_negs=0, steps=len(d["history"]), insts=[inst], dropped=[], full=False)
+
+
+def _judge(plan, tier, t0, g, n_hists, model_negs, steps, insts, dropped, full):
+    t_model = time.time() - t0[0]
     texts = {}
     traces, meta, sem_cases, sem_meta = [], [], [], []
     used_hist = set()
     classes = set()
-
-    class _Stats(dict):
-        def __missing__(self, k):
-            return 0
     st = _Stats()
-    for inst in insts:
-        chosen = choose_histories(rng, pools, inst, n_extra)
+    for inst, chosen in plan:
         for h in chosen:
-            tr, info = replay(inst, h, st, texts)
+            tr, info = replay_history(inst, h, st, texts)
             if not tr["ev"]:
                 continue
             used_hist.add(json.dumps(h[:len(tr["ev"])]))
@@ -364,7 +384,7 @@ def run(tier, seed):
                     if i["enc"] is not None:
                         sem_cases.append({"n": inst.table["n"], "a": [i["ref"]], "bs": [{"b": [i["enc"]], "rel": "exact"}]})
                         sem_meta.append((inst, h, k, i["act"]))
-    t_replay = time.time() - t0 - t_model
+    t_replay = time.time() - t0[0] - t_model
     # ---- negative controls (hand-written) appended to the batch
     negs = negative_traces()
     neg_at = {}
@@ -487,8 +507,19 @@ def run(tier, seed):
                                                           f"{k + 1} has a different unitary than the reference record {allc[ti]['a'][0]} (TLC verdict {clause}); "
                                                           f"encoded result {allc[ti]['bs'][si]['b'][0]}",
                                           replay={"instance": inst.label, "history": h[:k + 1], "reference": allc[ti]["a"][0], "result": allc[ti]["bs"][si]["b"][0]}))
-        if n_sem_neg != len(allc) - n_real_cases or not n_sem_neg:
+        if n_sem_neg != len(allc) - n_real_cases or (full and not n_sem_neg):
             raise lib.MachineryError("negative controls of the exact-semantics comparison missing")
+    # ---- vacuity: every action, in-place writes after a deep copy and the exact-semantics side must really have been exercised
+    if full:
+        for a_ in PRESERVING + ("rebind", "mutate"):
+            if st["act:" + a_] < 50:
+                raise lib.MachineryError(f"vacuous: only {st['act:' + a_]} events of action {a_}")
+        n_iso = sum(1 for tr in traces[:len(traces) - len(negs)] for e in tr["ev"] if e["act"] == "mutate" and any(
+            (p["act"] == "deep" and (p["src"] == e["src"] or k + 1 == e["src"])) for k, p in enumerate(e["prov"])))
+        if n_iso < 50 or n_sem_tlc < 100:
+            raise lib.MachineryError(f"vacuous: {n_iso} writes next to a deep copy, {n_sem_tlc} exact-semantics pairs")
+    else:
+        n_iso = 0
     # ---- evidence
     n_real = len(traces) - len(negs)
     nontriv = set()
@@ -508,27 +539,27 @@ def run(tier, seed):
                         "failing_clauses": [c for (_, c) in fails.get(ti, [])],
                         "result_params": traces[ti]["tbl"][traces[ti]["ev"][-1]["post"][-1] - 1]["params"][:3]})
     fam = Counter(i.family for i in insts)
-    cov = {"states": g.distinct + r.distinct + sem_stats["distinct"],
-           "transitions": g.generated + r.generated + sem_stats["generated"],
+    cov = {"states": (g.distinct if g else 0) + r.distinct + sem_stats["distinct"],
+           "transitions": (g.generated if g else 0) + r.generated + sem_stats["generated"],
            "traces_validated_against_impl": n_real, "evaluations": n_events, "distinct_nontrivial": len(nontriv),
            "rule": "non-trivial = distinct (operator class, action chain) replayed on an object that has parameters or a nested base operator; "
                    "every instance sees every action at the root plus chains / in-place writes drawn from TLC's exhaustive history set",
            "samples": samples, "exhaustive": False,
-           "model": {"module": "OpHeap", "states": g.distinct, "invariants": MODEL_INVS, "MaxSteps": steps, "NParams": 2,
+           "model": {"module": "OpHeap", "states": g.distinct if g else 0, "invariants": MODEL_INVS, "MaxSteps": steps, "NParams": 2,
                      "negative_controls_of_model_rejected": model_negs},
-           "histories_generated": len(hists), "history_steps": steps, "distinct_histories_replayed": len(used_hist),
+           "histories_generated": n_hists, "history_steps": steps, "distinct_histories_replayed": len(used_hist),
            "instances": len(insts), "instances_by_family": dict(fam), "recipes_dropped": dropped,
            "classes_exercised": len(classes), "classes_in_pennylane": len(allcls), "classes_exercised_of_pennylane": len(classes & allcls),
            "events_by_action": {k[4:]: v for k, v in st.items() if k.startswith("act:")},
            "skipped": {k[8:]: v for k, v in st.items() if k.startswith("skipped:")}, "skip_reasons": st.get("skip_reasons", {}),
-           "mutations": st["mutations"], "mutations_skipped_no_cell": st["mutate_skipped"],
+           "mutations": st["mutations"], "writes_to_a_deep_copy_or_its_source": n_iso, "mutations_skipped_no_cell": st["mutate_skipped"],
            "exact_semantics_cases_ok": n_sem_ok, "exact_semantics_distinct_pairs_decided_by_tlc": n_sem_tlc, "exact_semantics_unencodable": st["sem_unencodable"], "exact_semantics_unencodable_why": st.get("sem_unencodable_why", {}),
            "failing_event_clauses": dict(per_clause), "model_drift": dict(drift_count),
            "negative_controls_rejected": nneg + n_sem_neg + model_negs,
            "exceptions_seen": st.get("exceptions", {}), "equal_raised": st.get("equal_raised", {}),
-           "timing_s": {"model+gen": round(t_model, 1), "space+replay": round(t_replay, 1), "total": round(time.time() - t0, 1),
-                        "python_cpu": round(time.process_time() - cpu0, 1),
-                        "tlc_cpu": round(sum(resource.getrusage(resource.RUSAGE_CHILDREN)[:2]) - kid0, 1)}}
+           "timing_s": {"model+gen+space": round(t_model, 1), "replay": round(t_replay, 1), "total": round(time.time() - t0[0], 1),
+                        "python_cpu": round(time.process_time() - t0[1], 1),
+                        "tlc_cpu": round(sum(resource.getrusage(resource.RUSAGE_CHILDREN)[:2]) - t0[2], 1)}}
     return CheckResult(coverage=cov, violations=viol, assumptions=[
         "content is read through the public accessors (class, wires, data, hyperparameters / bound arguments); list vs tuple and the "
         "interface of a value after capture evaluation are not attributes",
